@@ -8,7 +8,7 @@ import importlib
 import os
 from pathlib import Path
 
-DRIVERS = ("cli_table", "tikz_templates", "subseq_gen", "rmq_gen", "dsu_gen", "entry_gen", "eval_gen", "lca_gen", "toposort_gen", "table_gen", "thl_gen", "spfs_gen", "uspfs_gen")
+DRIVERS = ("cli_table", "tikz_templates", "subseq_gen", "rmq_gen", "dsu_gen", "build_gen", "entry_gen", "eval_gen", "lca_gen", "toposort_gen", "table_gen", "thl_gen", "spfs_gen", "uspfs_gen")
 
 
 def regenerate(strict=True):
